@@ -928,7 +928,7 @@ func (x *Exec) loop(s ast.Stmt, st *State, cx *Ctx, k func(*State)) {
 			}
 		}
 		lkind := "range"
-		if forS != nil || kind == "chan" {
+		if (forS != nil && !x.countedAndBounded(forS, counter)) || kind == "chan" {
 			lkind = "for"
 		}
 		kOuter := k
@@ -982,6 +982,84 @@ func (x *Exec) loop(s ast.Stmt, st *State, cx *Ctx, k func(*State)) {
 	} else {
 		run(st)
 	}
+}
+
+// countedAndBounded: "for i := a; i < b; i++" whose body assigns neither i nor anything b is
+// made of - such a loop ends after b-a iterations like "for range b-a" does (C16, rule SE
+// looks at unbounded loops only).
+func (x *Exec) countedAndBounded(forS *ast.ForStmt, counter types.Object) bool {
+	if counter == nil || forS.Cond == nil {
+		return false
+	}
+	be, ok := ast.Unparen(forS.Cond).(*ast.BinaryExpr)
+	if !ok || (be.Op != token.LSS && be.Op != token.LEQ) {
+		return false
+	}
+	id, ok := ast.Unparen(be.X).(*ast.Ident)
+	if !ok || x.info().Uses[id] != counter {
+		return false
+	}
+	// the bound: identifiers, field selections and literals only
+	boundObjs := map[types.Object]bool{}
+	boundFields := map[string]bool{}
+	pure := true
+	ast.Inspect(be.Y, func(n ast.Node) bool {
+		switch t := n.(type) {
+		case *ast.Ident:
+			if o := x.info().Uses[t]; o != nil {
+				boundObjs[o] = true
+			}
+		case *ast.SelectorExpr:
+			boundFields[t.Sel.Name] = true
+		case *ast.BasicLit, *ast.ParenExpr, *ast.BinaryExpr:
+		case *ast.CallExpr:
+			if f, ok := t.Fun.(*ast.Ident); !ok || (f.Name != "len" && f.Name != "uint" && f.Name != "int") {
+				pure = false
+			}
+		default:
+			if n != nil {
+				pure = false
+			}
+		}
+		return true
+	})
+	if !pure {
+		return false
+	}
+	ok = true
+	ast.Inspect(forS.Body, func(n ast.Node) bool {
+		var lhs []ast.Expr
+		switch t := n.(type) {
+		case *ast.AssignStmt:
+			lhs = t.Lhs
+		case *ast.IncDecStmt:
+			lhs = []ast.Expr{t.X}
+		case *ast.UnaryExpr:
+			if t.Op == token.AND {
+				lhs = []ast.Expr{t.X}
+			}
+		}
+		for _, l := range lhs {
+			switch t := ast.Unparen(l).(type) {
+			case *ast.Ident:
+				o := x.info().Uses[t]
+				if o == nil {
+					o = x.info().Defs[t]
+				}
+				if o == counter || boundObjs[o] {
+					ok = false
+				}
+			case *ast.SelectorExpr:
+				if boundFields[t.Sel.Name] {
+					ok = false
+				}
+			case *ast.IndexExpr, *ast.StarExpr:
+				// writes through pointers / into containers do not change a local or a field named in the bound
+			}
+		}
+		return true
+	})
+	return ok
 }
 
 // modAnalysis computes what a loop may modify.
